@@ -101,7 +101,10 @@ def h_reconcile(ctx, case):
         [REF_GENES[i] for i in ctx.subset('query_has', ng)]
     if case.get('perm_query') and len(qsub) > 1:
         qsub = [qsub[i] for i in ctx.perm('query_order', len(qsub))]
-    query = ['qOnly'] + qsub
+    # optionally many more query genes than reference genes (index
+    # types change at 256 columns)
+    query = [f'filler{i}' for i in range(case.get('wide_query', 0))] \
+        + ['qOnly'] + qsub
     minm = 1 + ctx.choice('min_markers-1', case.get('max_min', 2))
     all_par = [None] + [(levels[li], n) for li in range(len(levels) - 1)
                         for n in names[li]]
@@ -314,6 +317,7 @@ HARNESSES = [
                     'perm_query': True, 'dups': True},
                    {'sizes': [2], 'genes': 3, 'perm_means': True},
                    {'sizes': [2], 'genes': 2, 'foreign': True},
+                   {'sizes': [2], 'genes': 2, 'wide_query': 300},
                    {'sizes': [2, 3], 'genes': 2, 'max_min': 2},
                    {'sizes': [1, 2], 'genes': 2, 'foreign': True},
                    {'sizes': [3, 2], 'genes': 1, 'onto': False},
